@@ -11,7 +11,7 @@ from ..wrap import WrapSpec, wrap_problems
 from .common import DT, CT, ckey, datatype_classes, only_raises_notimplemented
 
 EXPLANATION = (
-    "Static rules D8.1-D8.6 (DESIGN.md section 5, C08) over every DataType subclass in the model "
+    "Static rules D8.1-D8.7 (DESIGN.md section 5, C08) over every DataType subclass in the model "
     "(module-level classes and the classes produced by the Struct/Array/StructTag/FixedSizeString/n_bytes factories): "
     "T-WRAP containment of the two base wrappers and of every public encode/decode override (all paths, incl. statements "
     "outside the try), the BufferEmptyError pass-through, the exception class hierarchy, the empty/short-read guards of "
@@ -354,3 +354,25 @@ def d8_6(ctx):
     from .C06 import d6_6
 
     d6_6(ctx)
+
+
+@rule(P, "D8.7", "T-DEFUSE", floor=8)
+def d8_7(ctx):
+    """Handlers that convert failures into DataError read only names that are bound on every path into the handler (a local
+    first bound inside the try body is unbound when the body fails earlier: UnboundLocalError would leave the handler)."""
+    from ..guards import possibly_unbound_in_handlers
+
+    n = 0
+    for c in datatype_classes(ctx):
+        for name, m in c.methods.items():
+            if not any(isinstance(x, ast.ExceptHandler) for x in walk(m)):
+                continue
+            n += 1
+            probs = possibly_unbound_in_handlers(ctx, m)
+            key = ckey(f"{c.key}.{name}", "handler-names")
+            if probs:
+                x, h = probs[0]
+                ctx.violation(key, x, f"`{x.id}` is read in the `except` handler of {c.name}.{name} but is first bound inside the try body: when the body fails before that binding the handler raises UnboundLocalError instead of DataError",
+                              names=sorted({p[0].id for p in probs}))
+            else:
+                ctx.ok(key, m, "every name read in a handler is bound on all paths into it")
